@@ -37,7 +37,7 @@ C03_Parts == C03_Raising
 C09_Parts == {P("exec", "none"), P("execp", "none"), P("execp", "all"), P("eval", "repr"), P("evalp", "c_replace"),
               P("raise", "none"), P("praise", "none"), P("raise", "nontb"), P("raise", "tb_type"), P("raise", "tb_exact"),
               P("cerr", "none"), P("cerr", "all"), P("reprbad", "repr"), P("preprbad", "repr"), P("preprbad", "own"), P("reprbad", "none"),
-              P("exit", "none"), P("comment", "none"), P("defh", "none"), P("callh", "none"), P("callh", "tb_type"),
+              P("exit", "none"), P("comment", "none"), P("defh", "none"), P("callh", "none"), P("callh", "tb_type"), P("callh", "nontb"),
               [body |-> "execp", want |-> "none", dirs |-> <<D("BADARG", TRUE)>>, inline |-> TRUE],
               [body |-> "comment", want |-> "none", dirs |-> <<D("BADARG", TRUE)>>, inline |-> FALSE],
               [body |-> "comment", want |-> "none", dirs |-> <<D("SKIP", TRUE)>>, inline |-> FALSE]}
